@@ -1,3 +1,51 @@
 // harnesses mounted as child module of agdb/src/storage/file_storage_memory_mapped.rs
 #[allow(unused_imports)]
 use super::*;
+use crate::storage::Storage;
+use crate::verif_support::ArrStorage;
+
+// C01 obligation D (second half): the recovery log is cleared (StorageData::flush)
+// exactly when the OUTERMOST storage transaction ends, however transactions
+// nest. `ArrStorage` counts the flush calls.
+//@ id=C01 tier=quick timeout=600 bounds="6 symbolic steps, each begin-transaction or commit(id) with a symbolic id; nesting depth <= 6" desc="Storage::commit succeeds only for the innermost open transaction, and the back end is flushed exactly when the nesting depth returns to zero (never while a transaction is still open, always when the outermost one ends)" kernel="Storage::transaction,Storage::commit,Storage::begin_transaction,Storage::end_transaction"
+#[kani::proof]
+#[kani::stub(std::fmt::format, crate::verif_support::fmt_stub)]
+#[kani::stub(crate::DbError::new, crate::verif_support::dberror_new_stub)]
+#[kani::unwind(8)]
+fn c01_log_cleared_only_when_outermost_transaction_ends() {
+    let mut s: Storage<ArrStorage> = crate::storage::verif_h::fresh_arr_storage();
+    let mut depth: u64 = 0;
+    let mut expected_flushes: u32 = 0;
+    let mut k = 0;
+    while k < 6 {
+        let begin: bool = kani::any();
+        if begin {
+            let id = s.transaction();
+            depth += 1;
+            assert!(id == depth, "C01: transaction id is not the nesting depth");
+        } else {
+            let id: u64 = kani::any();
+            let r = s.commit(id);
+            if depth > 0 && id == depth {
+                assert!(r.is_ok(), "C01: committing the innermost transaction failed");
+                depth -= 1;
+                if depth == 0 {
+                    expected_flushes += 1;
+                }
+            } else if depth == 0 && id == 0 {
+                // nothing open: committing "transaction 0" is a no-op
+                assert!(r.is_ok());
+            } else {
+                assert!(r.is_err(), "C01: commit of a transaction that is not the innermost one succeeded");
+            }
+            std::mem::forget(r);
+        }
+        let flushes = crate::storage::verif_h::data_of(&s).flushes;
+        assert!(flushes == expected_flushes, "C01: log cleared at the wrong nesting depth");
+        k += 1;
+    }
+    kani::cover!(expected_flushes == 2, "two outermost commits");
+    kani::cover!(depth == 3, "three transactions still open");
+    kani::cover!(true, "end of harness reachable");
+    std::mem::forget(s);
+}
